@@ -137,11 +137,24 @@ def t_types( ctx ):
     missing = set( spec.TYPED_DATA_SUPPORTED ) - seen
     for m in sorted( missing ):
         res.bad( src, ts, 'TYPES_SUPPORTED lacks %s' % m, 'all 14 CIP element types + STRUCT must be supported' )
+    # ( by value: the function body is evaluated for three element sizes x four counts )
     ds = src.get( 'typed_data.datasize' )
-    if pfind( ds, 'cls.TYPES_SUPPORTED[_t].struct_calcsize * _n' ) or pfind( ds, '_n * cls.TYPES_SUPPORTED[_t].struct_calcsize' ):
+    from .fold import run_block, Record
+    dparams = [ a.arg for a in ds.args.args if a.arg not in ( 'cls', 'self' ) ]
+    wrong = None
+    try:
+        for code, width in (( 0xC2, 1 ), ( 0xC3, 2 ), ( 0xC4, 4 ), ( 0xC5, 8 )):
+            for cnt in ( 0, 1, 3, 10 ):
+                env = { 'cls.TYPES_SUPPORTED': { code: Record( struct_calcsize=width, tag_type=code ) }, dparams[0]: code, dparams[1]: cnt }
+                out = run_block( ds.body, env, ignore_calls=( 'log', ))
+                if not ( out.kind == 'return' and out.value == width * cnt ) and wrong is None:
+                    wrong = ( code, cnt, out, width * cnt )
+    except ( NoFold, IndexError ) as exc:
+        raise AnalysisError( 'typed_data.datasize not foldable: %s' % exc )
+    if wrong is None:
         res.ok( src, ds, 'datasize = TYPES_SUPPORTED[tag_type].struct_calcsize * size' )
     else:
-        res.bad( src, ds, 'typed_data.datasize', 'must be TYPES_SUPPORTED[tag_type].struct_calcsize * size' )
+        res.bad( src, ds, 'typed_data.datasize( 0x%02X, %d ) -> %r' % wrong[:3], 'must be TYPES_SUPPORTED[tag_type].struct_calcsize * size ( %d )' % wrong[3] )
 
     # (4) typed_data dispatch rows (from the extracted grammar): decide( P ) -> element parser of class P -> move .P into .data
     m = g.machines.get( 'typed_data(.type)' )
